@@ -13,7 +13,7 @@ EXPLANATION = (
     "invoked only inside the catch_unwind closure of EventListeners::emit, the listener loop continues "
     "after a caught panic, and the listener list is private. Not decided: equality of payload values "
     "beyond identity of value flow; behaviour of tokio/tower primitives."
-    ' Over every crate: (NO-PANIC-ARITH) no panicking Instant/Duration operator on a value not bounded by a constant; (CLONE-FAITHFUL) hand-written Clone impls of error enums preserve the variant.')
+    ' Over every crate: (NO-PANIC-ARITH) no panicking Instant/Duration operator on a value not bounded by a constant; (CLONE-FAITHFUL) hand-written Clone impls of error enums preserve the variant. (LISTEN-NOLOCK) no std::sync lock guard is live where a layer notifies its listeners.')
 RULE = ("one obligation per (rule, site): READY per inner call site, FWD per Service impl, REQ per inner call "
         "site, LISTEN per on_event site / emit body; non-trivial = distinct site keys")
 TRUSTED = ["rustc MIR construction (nightly)", "tower Service contract", "std::panic::catch_unwind", "std::mem::replace"]
